@@ -11,13 +11,16 @@
      reset{fam,np,leaderless,pk,static,dyn}  submit{id,keyed,part,sc,xout,xtarget}
      offer{id,n,ret,perr} (the wrapped partitioner was called)  wire{id,part} (produce request
      at the broker)  outcome{id,kind,part,err,cls} (Successes()/Errors();
-     cls: class of the error, "transport" = connection trouble between client and mock broker)  done{msgs,note}        *)
+     cls: class of the error, "transport" = connection trouble between client and mock broker)
+     leaders{leaderless} (the broker's metadata changed while the producer was idle)  done{msgs,note}
+   Two instances of one constructor with interleaved calls (spec/PartitionerPair.tla) are family
+   "part" traces as well: call events carry the instance in "inst", judged by the same clauses.   *)
 EXTENDS PartitionerOps, TLC, Json
 
 Trace == ndJsonDeserialize("trace.ndjson")
 
-VARIABLES l, viol, cur, memo, rrh, pm, st
-vars == <<l, viol, cur, memo, rrh, pm, st>>
+VARIABLES l, viol, cur, memo, rrh, pm, st, curL
+vars == <<l, viol, cur, memo, rrh, pm, st, curL>>
 
 E == Trace[l]
 ToSet(s) == {s[k] : k \in DOMAIN s}
@@ -53,29 +56,43 @@ TCall ==
   /\ st' = [st EXCEPT !.calls = @ + 1,
                       !.noreturn = @ + (IF E.err # "" THEN 1 ELSE 0),
                       !.drift = @ + (IF E.err = "" /\ E.xk = "exact" /\ E.ret # E.xv THEN 1 ELSE 0)]
-  /\ UNCHANGED <<cur, pm>>
+  /\ UNCHANGED <<cur, pm, curL>>
 
 (* ------------------------------ family "prod" ------------------------------ *)
 NewMsg == [si |-> E.i, keyed |-> E.keyed, part |-> E.part, sc |-> E.sc, xout |-> E.xout, xtarget |-> E.xtarget,
-           offers |-> <<>>, wires |-> <<>>, outs |-> <<>>]
+           offers |-> <<>>, wires |-> <<>>, outs |-> <<>>, Ls |-> curL]
 Known == E.id \in DOMAIN pm
+
+\* the index chosen for message id is usable and designates this partition of the list it was offered from
+Asked(m) == Len(m.offers) > 0
+LastOffer(m) == m.offers[Len(m.offers)]
+ValidChoice(m) == Asked(m) /\ LastOffer(m).perr = "" /\ LastOffer(m).ret >= 0 /\ LastOffer(m).ret < LastOffer(m).n
+OfferedTo(m) == Offered(cur.np, m.Ls, cur.static, cur.dyn, m.keyed)
+TargetOf(m) == Nth(OfferedTo(m), LastOffer(m).ret)
+HasTarget(m) == ValidChoice(m) /\ LastOffer(m).n = Cardinality(OfferedTo(m))
+\* connection trouble anywhere in the scenario may legitimately have opened a circuit breaker
+ScenTransport == \E j \in DOMAIN pm : \E k \in DOMAIN pm[j].outs : pm[j].outs[k].cls = "transport"
+\* partitionProducer.breaker (3 errors, 10 s): earlier messages routed to partition p that failed
+FailedAt(p, id) == Cardinality({j \in DOMAIN pm : j < id /\ HasTarget(pm[j]) /\ TargetOf(pm[j]) = p
+                                                  /\ \E k \in DOMAIN pm[j].outs : pm[j].outs[k].kind = "error"})
 
 Judge(id) ==
   LET m == pm[id]
-      Ls == ToSet(cur.leaderless)
+      Ls == m.Ls
       req == Requires(cur.static, cur.dyn, m.keyed)
-      S == Offered(cur.np, Ls, cur.static, cur.dyn, m.keyed)
+      S == OfferedTo(m)
       n == Cardinality(S)
       offeredOk == \A k \in DOMAIN m.offers : m.offers[k].n = n
-      asked == Len(m.offers) > 0
-      o == m.offers[Len(m.offers)]
-      valid == asked /\ o.perr = "" /\ o.ret >= 0 /\ o.ret < o.n
+      asked == Asked(m)
+      o == LastOffer(m)
+      valid == ValidChoice(m)
       success == \E k \in DOMAIN m.outs : m.outs[k].kind = "success"
       failsUnsent == /\ \E k \in DOMAIN m.outs : m.outs[k].kind = "error"
                      /\ ~success
                      /\ m.wires = <<>>
       transport == \E k \in DOMAIN m.outs : m.outs[k].cls = "transport"
       target == Nth(S, o.ret)
+      workerBreaker == FailedAt(target, id) >= 3
       wiresAt(p) == \A k \in DOMAIN m.wires : m.wires[k] = p
       succAt(p) == \A k \in DOMAIN m.outs : m.outs[k].kind = "success" => m.outs[k].part = p
   IN
@@ -84,54 +101,62 @@ Judge(id) ==
   \cup At(m.si, n = 0 /\ (asked \/ ~failsUnsent), "no_partition_fails_unsent")
   \cup At(m.si, n > 0 /\ asked /\ ~valid /\ ~failsUnsent, "invalid_choice_fails_unsent")
   \cup At(m.si, ~asked /\ m.wires # <<>>, "sent_to_chosen_partition")
+  \* partitions are available for this message (also: again, after the leaders came back): the partitioner
+  \* is asked - no circuit breaker may be open unless real errors (connection trouble) occurred
+  \cup At(m.si, n > 0 /\ ~asked /\ ~ScenTransport, "available_partitions_are_offered")
   \cup At(m.si, n > 0 /\ valid /\ o.n = n /\
                   ~(/\ wiresAt(target) /\ succAt(target)
-                    /\ ((target \notin Ls /\ ~transport) => (m.wires # <<>> /\ success))),
+                    /\ ((target \notin Ls /\ ~transport /\ ~ScenTransport /\ ~workerBreaker) => (m.wires # <<>> /\ success))),
           "sent_to_chosen_partition")
 
 Drift(id) ==
   LET m == pm[id]
       kind == IF \E k \in DOMAIN m.outs : m.outs[k].kind = "success" THEN "success"
               ELSE IF m.outs # <<>> THEN "error" ELSE "none"
-  IN IF kind # m.xout \/ (kind = "success" /\ m.xtarget >= 0 /\ \E k \in DOMAIN m.outs : m.outs[k].part # m.xtarget)
+  IN IF (m.xout # "any" /\ kind # m.xout) \/ (kind = "success" /\ m.xtarget >= 0 /\ \E k \in DOMAIN m.outs : m.outs[k].part # m.xtarget)
      THEN 1 ELSE 0
 
 TSubmit == /\ E.ev = "submit"
            /\ pm' = (E.id :> NewMsg) @@ pm
-           /\ UNCHANGED <<viol, cur, memo, rrh, st>>
+           /\ UNCHANGED <<viol, cur, memo, rrh, st, curL>>
 TOffer == /\ E.ev = "offer"
           /\ pm' = IF Known THEN [pm EXCEPT ![E.id].offers = Append(@, [n |-> E.n, ret |-> E.ret, perr |-> E.perr])] ELSE pm
-          /\ UNCHANGED <<viol, cur, memo, rrh, st>>
+          /\ UNCHANGED <<viol, cur, memo, rrh, st, curL>>
 TWire == /\ E.ev = "wire"
          /\ pm' = IF Known THEN [pm EXCEPT ![E.id].wires = Append(@, E.part)] ELSE pm
          /\ viol' = viol \cup When(~Known, "sent_to_chosen_partition")
-         /\ UNCHANGED <<cur, memo, rrh, st>>
+         /\ UNCHANGED <<cur, memo, rrh, st, curL>>
 TOutcome == /\ E.ev = "outcome"
             /\ pm' = IF Known THEN [pm EXCEPT ![E.id].outs = Append(@, [kind |-> E.kind, part |-> E.part, err |-> E.err, cls |-> E.cls])] ELSE pm
-            /\ UNCHANGED <<viol, cur, memo, rrh, st>>
+            /\ UNCHANGED <<viol, cur, memo, rrh, st, curL>>
+TLeaders == /\ E.ev = "leaders"
+            /\ curL' = ToSet(E.leaderless)
+            /\ st' = [st EXCEPT !.flips = @ + 1]
+            /\ UNCHANGED <<viol, cur, memo, rrh, pm>>
 TDone == /\ E.ev = "done"
          /\ viol' = viol \cup UNION {Judge(id) : id \in DOMAIN pm}
          /\ st' = [st EXCEPT !.scen = @ + 1, !.msgs = @ + Cardinality(DOMAIN pm),
                              !.drift = @ + Cardinality({id \in DOMAIN pm : Drift(id) = 1})]
-         /\ UNCHANGED <<cur, memo, rrh, pm>>
+         /\ UNCHANGED <<cur, memo, rrh, pm, curL>>
 
 (* ------------------------------ common ------------------------------ *)
 NoMsgs == [x \in {} |-> 0]
-Init == /\ l = 1 /\ viol = {} /\ cur = [fam |-> "-"] /\ memo = {} /\ rrh = <<>> /\ pm = NoMsgs
-        /\ st = [calls |-> 0, noreturn |-> 0, drift |-> 0, scen |-> 0, msgs |-> 0, insts |-> 0]
+Init == /\ l = 1 /\ viol = {} /\ cur = [fam |-> "-"] /\ memo = {} /\ rrh = <<>> /\ pm = NoMsgs /\ curL = {}
+        /\ st = [calls |-> 0, noreturn |-> 0, drift |-> 0, scen |-> 0, msgs |-> 0, insts |-> 0, flips |-> 0]
 
 TReset == /\ E.ev = "reset"
           /\ cur' = E /\ memo' = {} /\ rrh' = <<>> /\ pm' = NoMsgs
+          /\ curL' = IF E.fam = "prod" THEN ToSet(E.leaderless) ELSE {}
           /\ st' = [st EXCEPT !.insts = @ + (IF E.fam = "part" THEN 1 ELSE 0)]
           /\ UNCHANGED viol
 TEnd == /\ E.ev = "end"
         /\ PrintT(<<"VIOL", ToJson(viol)>>)
         /\ PrintT(<<"STATS", ToJson(st)>>)
-        /\ UNCHANGED <<viol, cur, memo, rrh, pm, st>>
+        /\ UNCHANGED <<viol, cur, memo, rrh, pm, st, curL>>
 
 Next == /\ l <= Len(Trace)
         /\ l' = l + 1
-        /\ (TCall \/ TSubmit \/ TOffer \/ TWire \/ TOutcome \/ TDone \/ TReset \/ TEnd)
+        /\ (TCall \/ TSubmit \/ TOffer \/ TWire \/ TOutcome \/ TLeaders \/ TDone \/ TReset \/ TEnd)
 Spec == Init /\ [][Next]_vars
 Accepted == TLCGet("stats").diameter - 1 = Len(Trace)
 =============================================================================
